@@ -246,6 +246,7 @@ func drive(args []string) int {
 	os.RemoveAll(work)
 	os.MkdirAll(work, 0o755)
 	os.MkdirAll(filepath.Join(dir, "evidence"), 0o755)
+	os.RemoveAll(filepath.Join(dir, "replays", id))
 	os.MkdirAll(filepath.Join(dir, "replays", id), 0o755)
 	evPath := filepath.Join(dir, "evidence", id+".json")
 	os.Remove(evPath)
